@@ -297,6 +297,7 @@ func checkC08(c *Ctx) {
 	_, t, _ := srcAnalysis(c)
 	runSR(c.U, r, t, func(f *ssa.Function) bool { return !c.U.isCtl(f) })
 	c.controlsSR()
+	laReadCounter(c, "SR-count")
 	r.floor("SR/direct-read", 1, "readCounter.Read is the forwarding wrapper")
 	r.floor("SR/fill-or-fail", 4, "binary.Read in getMetaDataSize, thrift Read in ReadMetaData and PageHeader, io.CopyN (+ page body reads) in pageData")
 	r.floor("SR/seek", 2+len(c.U.TC), "getMetaDataSize, ReadMetaData, PageHeadersAtOffset x2, NewParquetReader per package")
